@@ -158,6 +158,15 @@ impl Doc {
         }
     }
 
+    /// The same document with the members of every object in reverse order.
+    pub fn reversed(&self) -> Doc {
+        match self {
+            Doc::Seq(v) => Doc::Seq(v.iter().map(|d| d.reversed()).collect()),
+            Doc::Obj(m) => Doc::Obj(m.iter().rev().map(|(k, v)| (k.clone(), v.reversed())).collect()),
+            d => d.clone(),
+        }
+    }
+
     /// True if no object has a duplicate key, numbers are classified canonically
     /// and floats are finite.
     pub fn is_plain(&self) -> bool {
